@@ -522,7 +522,86 @@ where
     }
 }
 
+/// pick_cube_uniform on managers whose variable count sits at the exponent limits of f64 (the
+/// branch probabilities are ratios of model counts over ALL variables: 2^1020 .. 2^1023 are the
+/// largest representable scales; from 1024 variables on the counts overflow, see DESIGN 9.3)
+fn uniform_wide_kind<K: BoolKind>(ctx: &mut Ctx, n: u32, draws: usize)
+where
+    for<'id> MgrOf<'id, K>: HasWorkers,
+    for<'x> INodeOfFunc<'x, K::F>: HasLevel,
+{
+    let k = K::NAME;
+    let mref = setup::<K>(1 << 14, 1 << 10, 1, n);
+    let act = [0u32, n / 2, n - 1];
+    let mut frng = crate::rng::Rng::new(0x5EED_0003 + n as u64);
+    for round in 0..2 {
+        let t = loop {
+            let t = Tt::random(3, &mut frng);
+            if t.count_ones() >= 2 && t.count_ones() <= 6 {
+                break t;
+            }
+        };
+        // f over the three active variables by minterm expansion
+        let f = mref.with_manager_shared(|m| {
+            let mut f = K::F::f(m);
+            for a in 0..8usize {
+                if !t.get(a) {
+                    continue;
+                }
+                let mut c = K::F::t(m);
+                for (i, &v) in act.iter().enumerate() {
+                    let l = if (a >> i) & 1 == 1 { K::F::var(m, v).unwrap() } else { K::F::not_var(m, v).unwrap() };
+                    c = c.and(&l).unwrap();
+                }
+                f = f.or(&c).unwrap();
+            }
+            f
+        });
+        let mut cache: Cache = Default::default();
+        cache.cache_all = true;
+        let mut orng = oxidd::util::Rng::new_seed(0xABCD_3000 + n as u64 + round);
+        let mut hits = [0f64; 8];
+        for _ in 0..draws {
+            let Some(c) = f.pick_cube_uniform(&mut cache, &mut orng) else {
+                ctx.violation(&format!("{k}:pick_cube_uniform:none-for-sat"), format!("{n} variables, f={t} over x0, x{}, x{}", act[1], act[2]));
+                return;
+            };
+            let proj: Vec<Option<bool>> = act.iter().map(|&v| ob(c[v as usize])).collect();
+            let inside: Vec<usize> = (0..8usize).filter(|&a| (0..3).all(|i| proj[i].map_or(true, |b| b == ((a >> i) & 1 == 1)))).collect();
+            if inside.iter().any(|&a| !t.get(a)) {
+                ctx.violation(&format!("{k}:pick_cube_uniform:non-model"), format!("{n} variables, f={t}: cube {proj:?} on the active variables"));
+                return;
+            }
+            for &a in &inside {
+                hits[a] += 1.0 / inside.len() as f64;
+            }
+        }
+        ctx.evals(draws as u64);
+        let models = t.count_ones() as usize;
+        let exp = draws as f64 / models as f64;
+        let chi2: f64 = (0..8usize).filter(|&a| t.get(a)).map(|a| (hits[a] - exp).powi(2) / exp).sum();
+        let df = (models - 1) as f64;
+        let thr = df * (1.0 - 2.0 / (9.0 * df) + 6.2 * (2.0 / (9.0 * df)).sqrt()).powi(3);
+        if chi2 > thr {
+            ctx.violation(
+                &format!("{k}:pick_cube_uniform:biased-in-wide-manager"),
+                format!("{n} variables, f={t} over x0, x{}, x{}: chi2 {chi2:.1} > {thr:.1} after {draws} draws; weights {:?}", act[1], act[2], hits.iter().map(|h| h.round() as i64).collect::<Vec<_>>()),
+            );
+        } else {
+            ctx.distinct((k, "uniform-wide", n, t.as_u64()));
+        }
+        ctx.count("uniform_draws_wide", draws as u64);
+    }
+}
+
 pub fn uniform(ctx: &mut Ctx) {
+    for (i, n) in [1019u32, 1020, 1021, 1022, 1023, 65, 128].into_iter().enumerate() {
+        if ctx.mine(i) {
+            let draws = ctx.by_tier(3000, 30_000);
+            uniform_wide_kind::<Bdd>(ctx, n, draws);
+            uniform_wide_kind::<Bcdd>(ctx, n, draws);
+        }
+    }
     let draws = ctx.by_tier(20_000, 200_000);
     uniform_kind::<Bdd>(ctx, draws);
     uniform_kind::<Bcdd>(ctx, draws);
